@@ -139,7 +139,12 @@ def run(idx, rep, tier):
         # T = Tridiagonal(off, diag, off): diag and Q cut to N, off-diagonal to N - 1, for one size variable N;
         # Q is whatever array is wrapped in Dense
         tri = [c for c in df.calls(lanczos.node) if nospace(c.func) == "Tridiagonal"]
-        off, dg = (nospace(tri[0].args[0]), nospace(tri[0].args[1])) if tri else (None, None)
+        def root(e):
+            """the array an expression selects from: `alpha[0]`, `alpha[..., :k]`, `alpha.real` -> alpha"""
+            while isinstance(e, (ast.Subscript, ast.Attribute)):
+                e = e.value
+            return e.id if isinstance(e, ast.Name) else nospace(e)
+        off, dg = (root(tri[0].args[0]), root(tri[0].args[1])) if tri else (None, None)
         dense = [c for c in df.calls(lanczos.node) if (nospace(c.func) == "Dense" or nospace(c.func).endswith("vmap(Dense)")) and c.args]
         qn = next((n for c in dense for n in df.names_in(c.args[0]) if n in trims), None)
         size = trims.get(dg)
